@@ -210,3 +210,74 @@ Definition iso_authentication (task : Z) (cfg : option Z) (cert chal algo : opti
       else iso_cat [iso_raw16 algo; iso_l16 pown; iso_l16 chal; iso_l16 add] in
     match params with Some d => ireq "Authentication" (Some task) d | None => None end
   else None.
+
+(* 0x38 RequestFileTransfer: U8 modeOfOperation 1..6, U16 path length, path (1..0xFFFF ASCII characters); modes 1, 3, 4, 6: U8
+   dataFormatIdentifier (compression << 4 | encryption, 0 when not given); modes 1, 3, 6: U8 fileSizeParameterLength, then the
+   uncompressed and the compressed size in that many bytes.  The caller gives the size as an integer or as a
+   Filesize(uncompressed, compressed, width): the compressed size defaults to the uncompressed one, the width to the fewest bytes that
+   hold the larger of the two.  Arguments that have no place in the mode are refused, as are sizes that do not fit the width. *)
+Inductive iso_fsize := IsoFsNone | IsoFsInt (v : Z) | IsoFsObj (u c w : option Z).
+Definition iso_bytes_for (v : Z) : Z := if v <=? 0 then 0 else (Z.log2 v + 8) / 8.
+Definition iso_sized (u c w : option Z) : option bytes :=
+  match u with
+  | None => None
+  | Some unc =>
+    let comp := match c with Some x => x | None => unc end in
+    let wd := match w with Some x => x | None => iso_bytes_for (Z.max unc comp) end in
+    if (0 <=? unc) && (0 <=? comp) && (0 <=? wd) && (wd <=? 255) && (unc <? 256 ^ wd) && (comp <? 256 ^ wd)
+    then Some (u8 wd ++ be_enc (Z.to_nat wd) unc ++ be_enc (Z.to_nat wd) comp) else None
+  end.
+Definition iso_file_transfer (moop : Z) (path : bytes) (d : option (Z * Z)) (f : iso_fsize) : option iso_req :=
+  let use_dfi := (moop =? 1) || (moop =? 3) || (moop =? 4) || (moop =? 6) in
+  let use_fs := (moop =? 1) || (moop =? 3) || (moop =? 6) in
+  if negb (in_u moop 6 && (1 <=? moop)) then None
+  else if negb ((1 <=? Z.of_nat (List.length path)) && (Z.of_nat (List.length path) <=? 65535) && forallb (fun ch => in_u ch 127) path) then None
+  else
+    match (if use_dfi then match d with Some (c, e) => if in_u c 15 && in_u e 15 then Some (u8 (16 * c + e)) else None | None => Some (u8 0) end
+           else match d with Some _ => None | None => Some [] end) with
+    | None => None
+    | Some db =>
+      match (if use_fs then match f with IsoFsNone => None | IsoFsInt v => iso_sized (Some v) None None | IsoFsObj u c w => iso_sized u c w end
+             else match f with IsoFsNone => Some [] | _ => None end) with
+      | None => None
+      | Some fb => ireq "RequestFileTransfer" None (u8 moop ++ u16 (Z.of_nat (List.length path)) ++ path ++ db ++ fb)
+      end
+    end.
+
+(* 0x2F InputOutputControlByIdentifier: DID, optional control parameter 0..3, control state (the codec's bytes), control enable mask.
+   The library's configuration of a DID: codec length (-1 = any), whether named masks are defined, their values, mask size *)
+Inductive iso_masks := IsoMNone | IsoMBool (b : bool) | IsoMList (l : list (Z * bool)).
+Definition iso_io_entry := (Z * bool * list Z * option Z)%type.
+Definition iso_io_entry_wf (e : iso_io_entry) : bool :=
+  let '(sh, hm, mvals, msize) := e in
+  (negb hm || forallb (fun m => 0 <=? m) mvals)
+  && match msize with None => true | Some ms => (0 <=? ms) && (negb hm || forallb (fun m => m <? 256 ^ ms) mvals) end.
+Definition iso_mask_number (mvals : list Z) (l : list (Z * bool)) : Z :=
+  fold_left (fun (acc : Z) '((i, b) : Z * bool) => if b then Z.lor acc (nth (Z.to_nat i) mvals 0) else acc) l 0.
+Definition iso_io_control (e : option iso_io_entry) (did : Z) (cp : option Z) (values : option bytes) (masks : iso_masks) : option iso_req :=
+  match e with
+  | None => None
+  | Some (sh, hm, mvals, msize) =>
+    if negb (in_u did 65535) then None
+    else if negb (match cp with Some c => in_u c 3 | None => true end) then None
+    else if (match values, masks with None, IsoMNone => false | None, _ => true | _, _ => false end) then None
+    else if negb (iso_io_entry_wf (sh, hm, mvals, msize)) then None
+    else
+      match (match values with Some v => if (sh <? 0) || (Z.of_nat (List.length v) =? sh) then Some v else None | None => Some [] end) with
+      | None => None
+      | Some vb =>
+        match (match masks with
+               | IsoMNone => Some []
+               | IsoMBool b => match msize with Some ms => Some (repeat (if b then 255 else 0) (Z.to_nat ms)) | None => None end
+               | IsoMList l =>
+                 if hm && forallb (fun '(i, _) => (0 <=? i) && (i <? Z.of_nat (List.length mvals))) l then
+                   let num := iso_mask_number mvals l in
+                   let size := match msize with Some ms => ms | None => iso_bytes_for num end in
+                   if num <? 256 ^ size then Some (be_enc (Z.to_nat size) num) else None
+                 else None
+               end) with
+        | None => None
+        | Some mb => ireq "InputOutputControlByIdentifier" None (u16 did ++ (match cp with Some c => u8 c | None => [] end) ++ vb ++ mb)
+        end
+      end
+  end.
